@@ -67,6 +67,26 @@ def task(W, payload):
         at = r.randint(0, len(reqs))
         reqs = reqs[:at] + pair + reqs[at:]
         bump(out, "chain_twin_requests")
+    # "diamond" of aggregates: two intermediate aggregates that SHARE a source, and their aggregate
+    names0 = base_ops[0]["comps"]
+    diamond = False
+    if len(names0) >= 2 and r.random() < 0.7:
+        x, y = names0[0], names0[1]; z = names0[2] if len(names0) > 2 else names0[1]
+        dm = [{"op": "request", "name": "dm_x", "kind": "comp", "comps": [x], "save": True},
+              {"op": "request", "name": "dm_y", "kind": "comp", "comps": [y], "save": True},
+              {"op": "request", "name": "dm_z", "kind": "comp", "comps": [z], "save": True},
+              {"op": "request", "name": "dm_a", "kind": "agg", "sources": ["dm_x", "dm_y"], "save": True},
+              {"op": "request", "name": "dm_b", "kind": "agg", "sources": ["dm_z", "dm_x"], "save": True},
+              {"op": "request", "name": "dm_t", "kind": "agg", "sources": ["dm_a", "dm_b"], "save": True}]
+        reqs = reqs + dm
+        diamond = True
+        bump(out, "diamond_aggregates")
+    # a compartment that is driven below zero (an absolute flow removing more than its source holds): derived outputs must not depend on
+    # whether the full compartment outputs are returned as well
+    if r.random() < 0.5:
+        first_req = next((i for i, op in enumerate(base_ops) if op["op"] in ("computed_value",)), len(base_ops))
+        base_ops.insert(first_req, {"op": "flow", "kind": "absolute", "name": "drain", "param": {"c": "4000"}, "src": names0[0], "dst": names0[-1]})
+        bump(out, "draining_absolute_flow")
     all_saved = [dict(op, save=True) for op in reqs]
     full, err = run_variant(W, base_ops + all_saved, prog["params"])
     out["evals"] += 1
@@ -107,6 +127,12 @@ def task(W, payload):
         check("save flags", got, [n for n in names if flags[n]], {"save": flags})
         if any(not flags[d] for k in names if flags[k] for d in depmap[k]):
             out["cases"].append(h + ":save:" + str(sorted(flags.items())))
+    if diamond:
+        flags = {n: n not in ("dm_a", "dm_b", "dm_x") for n in names}
+        got, err = run_variant(W, base_ops + [dict(op, save=flags[op["name"]]) for op in reqs], prog["params"])
+        out["evals"] += 1
+        check("save flags (unsaved intermediate aggregates sharing a source)", got, [n for n in names if flags[n]], {"save": flags})
+        out["cases"].append(h + ":diamond")
     # full compartment outputs omitted
     got, err = run_variant(W, base_ops + all_saved, prog["params"], raw_runner=True)
     out["evals"] += 1
